@@ -12,10 +12,12 @@
 (*                                                                         *)
 (* Events (all carry raised, tpost = per task [st, cbs, at, tcbs, pilot,   *)
 (* det, exc], ppost = per pilot [st, cbs, at, pcbs]):                      *)
-(*   Notify     batch = <<uid, state>>*, iso = <<[rm, post]>>*  (the real  *)
+(*   Notify     batch = <<uid, state>>* (docs labels the other fields of   *)
+(*              the task documents), iso = <<[rm, post]>>*  (the real      *)
 (*              code re-run on the batch without the entries of rm)        *)
 (*   Bind       uid, pilot, state: Notify of a full dict carrying 'pilot'  *)
 (*   PilotFinal pilot: _pilot_state_cb called directly for a final pilot   *)
+(*   RemovePilots pilots: TaskManager.remove_pilots                        *)
 (*   PNotify    batch = <<type, pid, state>>*, calls = pilots whose state  *)
 (*              callbacks ran with a final state, npilots, stray; docs     *)
 (*              labels the other fields of the pilot documents (they are   *)
@@ -186,6 +188,17 @@ Step ==
                             \cup DeathErrs(e, ends, {p \in Pids : IsFinal(NP, pstate[p])})
                             \cup (IF died \subseteq SeqToSet(e.calls) THEN {}
                                   ELSE {"N.FinalWithoutCallback"})
+               /\ UNCHANGED bound
+          [] e.ev = "RemovePilots" ->
+               \* TaskManager.remove_pilots: the tasks bound to the pilot stay
+               \* bound (nothing cancels or unbinds them), so the pilot's end is
+               \* still judged by C13; a final task stays what it is
+               /\ errs' = errs \cup UNION {LogErrs(t, e.tpost[t]) : t \in Uids}
+                            \cup UNION {E(IsFinal(NT, tstate[t]) => e.tpost[t].st = tstate[t],
+                                          "C06.FinalSticky") : t \in Uids}
+                            \cup (IF \A t \in Uids : e.tpost[t].st = tstate[t] THEN {}
+                                  ELSE {"N.RemoveChangedTasks"})
+                            \cup (IF e.raised THEN {"N.RemoveRaised"} ELSE {})
                /\ UNCHANGED bound
           [] OTHER ->
                /\ errs' = errs \cup {"X.UnknownEvent"}
